@@ -48,7 +48,7 @@ MIN_COUNTERS = {
         "cases": 600, "faults_fired": 500, "end_exception": 100, "end_rejected": 80, "end_completed": 50,
         "followup_resimulate": 150, "followup_regenerate": 150, "followup_recompile": 150, "override_pairs_checked": 300,
         "fired_compile": 20, "fired_generate": 30, "fired_simulate": 300, "snapshots_compared": 2000,
-        "fresh_references": 30,
+        "fresh_references": 24,
     },
     "thorough": {
         "cases": 15000, "faults_fired": 12000, "end_exception": 2000, "end_rejected": 2000, "end_completed": 1000,
@@ -370,6 +370,30 @@ def snap_scene(scene):
     return d
 
 
+REVERTS_ON_ORIGINAL = []  # property names written by Object._revert onto an object whose proxy is already disabled
+_revert_hooked = [False]
+
+
+def hook_revert():
+    """Observation hook (class attribute): which properties does `_revert` write onto ORIGINAL objects?"""
+    if _revert_hooked[0]:
+        return
+    _revert_hooked[0] = True
+    import scenic.core.object_types as ot
+
+    orig = ot.Constructible._revert
+
+    def _revert(self, oldVals):
+        try:
+            if object.__getattribute__(self, "_dynamicProxy") is self:
+                REVERTS_ON_ORIGINAL.extend(oldVals)
+        except AttributeError:
+            pass
+        return orig(self, oldVals)
+
+    ot.Constructible._revert = _revert
+
+
 class Ctx:
     """What survives between cases of one program in the shard process."""
 
@@ -496,6 +520,8 @@ def pipeline(prog, ctx, seeds, fault=None, recompile=True, pristine=None, broken
     if "simulate" in stages:
         F.PHASE = "simulate"
         F.LOG.clear()
+        hook_revert()
+        del REVERTS_ON_ORIGINAL[:]
         su.seed_all(seeds[2])
         sc0 = snap_scene(scene)
         s0 = snap_scenario(scenario)
@@ -518,6 +544,8 @@ def pipeline(prog, ctx, seeds, fault=None, recompile=True, pristine=None, broken
 
         gc.collect()  # suspended generators of the dead simulation are finalised now, not at some later point
         cmp("scene-after-simulation", sc0, snap_scene(scene))
+        if events and events[-1]["kind"] == "scene-after-simulation":
+            events[-1]["reverted_on_original"] = sorted(set(REVERTS_ON_ORIGINAL))
         cmp("scenario-after-simulation", s0, snap_scenario(scenario))
         if pristine is not None:
             cmp("globals-after-simulation", pristine, glob_state())
@@ -656,6 +684,21 @@ def classify_event(prog, ev):
     """Snapshot differences: only the veneer flag that is never reset is a known mechanism."""
     if ev["kind"].startswith("globals-") and ev["diffs"] == [".inInitialScenario"]:
         return "veneer.inInitialScenario-not-reset"
+    if ev["kind"] == "scene-after-simulation" and ev.get("reverted_on_original"):
+        # Simulation.__init__'s finally block disables the dynamic proxies BEFORE it stops the still-running
+        # scenarios, so their override reverts are written onto the original scene objects
+        props = set()
+        for d in ev["diffs"]:
+            m = re.match(r"^\.objects\[\d+\]\[2\]\.(\w+)", d)
+            if not m:
+                m2 = re.match(r"^\.objects\[\d+\]\[3\]\.beh", d)
+                if m2:
+                    props.add("behavior")
+                    continue
+                return None
+            props.add(m.group(1))
+        if props and props <= set(ev["reverted_on_original"]):
+            return "simulation.finally-reverts-overrides-onto-original-objects"
     if ev["kind"] == "globals-after-simulation" and ev["diffs"] == [".currentBehavior"]:
         # a generator suspended inside `with veneer.executeInBehavior(sub)` is finalised after endSimulation and
         # its context manager puts the dead simulation's behaviour back into veneer.currentBehavior
@@ -669,7 +712,7 @@ def classify_event(prog, ev):
 def plan(tier, seed):
     n = 16 if tier == "quick" else 64
     return [
-        {"shard": i, "programs": 3 if tier == "quick" else 10, "max_cases": 60 if tier == "quick" else 300, "max_compile": 6 if tier == "quick" else 16, "timeout": 1800 if tier == "quick" else 7000}
+        {"shard": i, "programs": 2 if tier == "quick" else 10, "max_cases": 50 if tier == "quick" else 300, "max_compile": 5 if tier == "quick" else 16, "timeout": 3000 if tier == "quick" else 9000}
         for i in range(n)
     ]
 
@@ -756,7 +799,8 @@ def run_case(prog, ctx, seeds, fault, ref, pristine, followups, rng, res, bump, 
     # (a) snapshots
     for ev in out["events"]:
         key = classify_event(prog, ev)
-        add(key, f"(a) {ev['kind']}: state differs at {ev['diffs'][:6]} (first: {ev['first']}); {tagdesc}; end={out['end']}")
+        extra = f"; properties written by _revert onto original objects: {ev['reverted_on_original']}" if ev.get("reverted_on_original") else ""
+        add(key, f"(a) {ev['kind']}: state differs at {ev['diffs'][:6]} (first: {ev['first']}){extra}; {tagdesc}; end={out['end']}")
     # (b) override pairs
     bump("override_pairs_checked", out.get("pairs", 0))
     for name, pre, post in out.get("bad_pairs", []):
